@@ -78,6 +78,14 @@ def extras(ctx, thorough):
         sc = _scen('rt-%s-body' % kind, {1: ["silence"], 2: ["silence"]}, 10, rng, timeoutms=400, scribble=True, **extra)
         sc['reqs'] = [{"tag": 1, "method": "POST", "bodyn": 3000000 if kind == 'stall' else 8000000, "atms": 0}, {"tag": 2, "method": "GET", "bodyn": 0, "atms": 50}]
         out.append(sc)
+    # answers that arrive about when the timer fires, request after request from the same callers: a timer that has fired
+    # belongs to the request it was armed for, not to the next one that is handed the same (pooled) context
+    for tmo, delay in ((8, 7), (8, 8), (12, 11), (6, 6)):
+        sc = _scen('rt-timer-edge', {}, 100, rng, nreq=4, timeoutms=tmo, defreact='ok@%d' % delay)
+        for q in sc['reqs']:
+            q['repeat'] = 120 if thorough else 60
+            q['bodyn'], q['method'] = 0, 'GET'
+        out.append(sc)
     # dialling fails once the first connection(s) are used up
     for at in (1, 2):
         out.append(_scen('rt-dialfail', {1: ["ga_below", "ok"], 2: ["close"], 3: ["ok"]}, 1, rng, dialfailat=at))
